@@ -23,6 +23,10 @@ pub enum St {
 
 type Job = Box<dyn FnOnce() -> Value + Send + 'static>;
 
+/// how long a granted step may take before the actor is declared stuck (every blocking call of the code under
+/// test is bracketed by hooks, so a step normally takes microseconds)
+pub const STALL_SECS: u64 = 20;
+
 struct Slot {
     st: St,
     granted: bool,
@@ -154,8 +158,9 @@ impl Actor {
         true
     }
 
-    /// start a job on an idle actor and wait until it parks / blocks / completes
-    pub fn submit(&self, job: Job) {
+    /// start a job on an idle actor and wait until it parks / blocks / completes.
+    /// false: the actor did not come back (it is stuck inside the code under test at a place that is not a yield point)
+    pub fn submit(&self, job: Job) -> bool {
         {
             let mut s = self.m.lock();
             assert!(s.st == St::Idle, "submit on non-idle actor {} {:?}", self.name, s.st);
@@ -164,14 +169,11 @@ impl Actor {
             s.result = None;
             self.cv.notify_all();
         }
-        if !self.settle(Duration::from_secs(60)) {
-            eprintln!("HARNESS-HANG: actor {} did not settle after submit", self.name);
-            std::process::exit(2);
-        }
+        self.settle(Duration::from_secs(STALL_SECS))
     }
 
-    /// let a parked actor take its next step
-    pub fn grant(&self) {
+    /// let a parked actor take its next step; false: it did not come back
+    pub fn grant(&self) -> bool {
         {
             let mut s = self.m.lock();
             assert!(matches!(s.st, St::Parked(_)), "grant on non-parked actor {} {:?}", self.name, s.st);
@@ -179,10 +181,7 @@ impl Actor {
             s.st = St::Running;
             self.cv.notify_all();
         }
-        if !self.settle(Duration::from_secs(60)) {
-            eprintln!("HARNESS-HANG: actor {} did not settle after grant", self.name);
-            std::process::exit(2);
-        }
+        self.settle(Duration::from_secs(STALL_SECS))
     }
 
     /// collect the result of a completed job; actor becomes idle
